@@ -3,6 +3,7 @@
 package c04
 
 import (
+	"strconv"
 	"context"
 	"fmt"
 	"strings"
@@ -287,19 +288,33 @@ func (c *countCtx) Err() error {
 type Cancel struct {
 	P    gen.Program `json:"p"`
 	Pick []uint16    `json:"pick"`
+	// Nested: the program is not loaded directly but by a nested load made from
+	// inside a function ("load-string", "load-bytes") -- the context of the
+	// outer entry point governs the nested evaluation too.
+	Nested string `json:"nested"`
 }
 
 func genCancel() *rapid.Generator[Cancel] {
 	return rapid.Custom(func(t *rapid.T) Cancel {
 		return Cancel{
 			P:    gen.GenProgramWith(gen.ProgOpts{MaxForms: 3, Budget: 40, Depth: 5, Extra: true}).Draw(t, "p"),
-			Pick: rapid.SliceOfN(rapid.Uint16(), 32, 32).Draw(t, "pick"),
+			Pick:   rapid.SliceOfN(rapid.Uint16(), 32, 32).Draw(t, "pick"),
+			Nested: rapid.SampledFrom([]string{"", "", "load-string", "load-bytes"}).Draw(t, "nested"),
 		}
 	})
 }
 
 func checkCancel(cs Cancel, c *vcommon.Ctx) *vcommon.Failure {
 	src, own := marked(cs.P)
+	direct := src
+	switch cs.Nested {
+	case "load-string":
+		src = "(defun run-nested () (list 1) (load-string " + strconv.Quote(src) + "))\n(run-nested)\n"
+		c.Class("nested/load-string")
+	case "load-bytes":
+		src = "(defun run-nested () (let ((k 1)) (load-bytes (to-bytes " + strconv.Quote(src) + "))))\n(list (run-nested))\n"
+		c.Class("nested/load-bytes")
+	}
 	// baseline: a context that never cancels (so steps are counted the same way)
 	never := &countCtx{after: 1 << 60}
 	rt0 := vcommon.NewRuntime(vcommon.Cfg{NoStdlib: true, MaxPhysical: 5000, MaxAlloc: 200000})
@@ -308,6 +323,16 @@ func checkCancel(cs Cancel, c *vcommon.Ctx) *vcommon.Failure {
 	if out0.IsErr && (strings.Contains(out0.Msg, "stack height exceeded") || out0.Cond == "eval-nesting-exceeded") || S > 100000 {
 		c.Class("skip/baseline-hit-other-limit")
 		return nil
+	}
+	if cs.Nested != "" && !out0.IsErr {
+		// every evaluation step of the program is still a step -- counted and
+		// polled -- when the program is loaded by a nested load
+		nv := &countCtx{after: 1 << 60}
+		rtd := vcommon.NewRuntime(vcommon.Cfg{NoStdlib: true, MaxPhysical: 5000, MaxAlloc: 200000})
+		outd := rtd.Observe(rtd.Env.LoadStringContext(nv, "test.lisp", direct))
+		if sd := rtd.Env.Runtime.Steps(); !outd.IsErr && S < sd {
+			return vcommon.Failf("cancel/nested-load-not-polled", "loaded directly the program takes %d steps (context polled %d times); loaded through %s from inside a function the whole run takes only %d steps (%d polls): the nested evaluation is neither counted nor cancellable\n%s", sd, nv.polls, cs.Nested, S, never.polls, src)
+		}
 	}
 	if never.polls != S {
 		return vcommon.Failf("cancel/poll-count", "the context was polled %d times in %d steps: cancellation is not checked at every step\n%s", never.polls, S, src)
